@@ -398,8 +398,23 @@ class Check:
         nproc = min(int(os.environ.get('VF_JOBS', '16')), max(1, njobs))
         if nproc > 1:
             import multiprocessing as mp
-            with mp.get_context('fork').Pool(nproc) as pool:
-                outs = pool.map(_job_entry, range(njobs), chunksize=1)
+            # watchdog: a worker stuck inside the solver (z3 does not always honour its timeout) must not hang the check:
+            # scenarios still running at the wall-clock deadline are UNDECIDED and the pool is terminated
+            wall = float(os.environ.get('VF_WALL_S') or (1500 if self.tier == 'quick' else 7200))
+            pool = mp.get_context('fork').Pool(nproc)
+            try:
+                pending = [pool.apply_async(_job_entry, (i,)) for i in range(njobs)]
+                outs = []
+                for i, r in enumerate(pending):
+                    try:
+                        outs.append(r.get(timeout=max(1.0, self.t0 + wall - time.time())))
+                    except mp.TimeoutError:
+                        j = self.jobs[i]
+                        self._undecided(j['func_name'], j['label'],
+                                        f'wall-clock budget of {wall:.0f} s exceeded (solver not returning)')
+            finally:
+                pool.terminate()
+                pool.join()
         else:
             outs = [self._run_job(i) for i in range(njobs)]
         self.job_times = []
